@@ -190,6 +190,18 @@ let check_kind (prop : string) (b : block) : verdict list =
                add (Diff ("table", Printf.sprintf "model [%s] impl [%s]"
                             (String.concat " " (List.map (fun (v, cnt) -> Printf.sprintf "%d:%s" v cnt) mrows))
                             (String.concat " " res)));
+             (* the ratio column against the extracted exact fraction (Model/Ratio.v, C04_ratio_exact) *)
+             (match snd (Mdl.Ratio.card_of_each_feature_ratio d !st) with
+              | Some rrows when List.length rrows = List.length irows ->
+                bump_by "ratio_rows_compared" (List.length rrows);
+                List.iteri (fun i (((_, _), (a, b)), (_, _, ratio)) ->
+                    let e = float_of_string (Conv.dec_of_z a) /. float_of_string (Conv.dec_of_z b) in
+                    let r = try float_of_string ratio with _ -> nan in
+                    if not (Float.abs (r -. e) <= 1e-9 *. Float.max 1.0 (Float.abs e)) then
+                      add (Diff ("table-ratio", Printf.sprintf "row %d: impl ratio %s, model %s/%s" (i + 1) ratio
+                                   (Conv.dec_of_z a) (Conv.dec_of_z b)))) (List.combine rrows irows)
+              | Some _ -> ()
+              | None -> add (Diff ("table-ratio", "model: Ratio::new panics (total count 0), the implementation answered")));
              (match tbl with
               | Some t ->
                 let total = List.length t in
